@@ -796,3 +796,23 @@ package exec
 //@   ensures  others-untouched: implies(task.Invocation.Index != inv.Index, task.Invocation.Env.Writable == old(task.Invocation.Env.Writable))
 //@   ensures  err == nil && task.Invocation.Index == old(task.Invocation.Index) && task.Invocation.Env.Cached == old(task.Invocation.Env.Cached)
 //@   modifies task.Invocation
+
+// ---- C15/C06: reads of task output from another machine ----
+
+// The reader opens its stream lazily, once, through a retrying reader over the opener; it passes rows and
+// end-of-stream through; with ReviseSeverity (dependency reads inside a task) a Fatal transport error is downgraded so
+// that the task is retried, while errors marked task-fatal keep their severity.
+//@ func exec.(*openerAtReader).Read (ctx, f) (n, err)
+//@   requires r != nil && r.OpenerAt != nil && implies(r.readCloser != nil, r.sliceioReader != nil)
+//@   may_panic
+//@   ensures  opened-once: r.readCloser != nil && r.sliceioReader != nil && implies(old(r.readCloser) != nil, r.readCloser == old(r.readCloser) && r.sliceioReader == old(r.sliceioReader))
+//@   ensures  rows-as-read: n == r.sliceioReader.lastN && r.sliceioReader.nreads == old(r.sliceioReader.nreads) + 1 || old(r.readCloser) == nil
+//@   ensures  unrevised: implies(!r.ReviseSeverity, err == r.sliceioReader.lastErr)
+//@   ensures  end-of-stream-kept: implies(r.sliceioReader.lastErr == sliceio.EOF, err == sliceio.EOF) && implies(r.sliceioReader.lastErr == nil, err == nil)
+//@   modifies r.readCloser, r.sliceioReader, errors.Error.Severity, SReader.nreads, SReader.lastN, SReader.lastErr, rowsSupplied, sawRowsWithEOF, ColMem
+
+//@ func exec.(*openerAtReader).Close () (err)
+//@   requires r != nil && implies(r.readCloser == nil, r.sliceioReader == nil)
+//@   ensures  closed: r.readCloser == nil && r.sliceioReader == nil
+//@   ensures  idempotent: implies(old(r.readCloser) == nil, err == nil)
+//@   modifies r.readCloser, r.sliceioReader, WCloser.zcloses, WCloser.zcloseErr
